@@ -10,7 +10,7 @@ from .report import RuleResult
 from .rules_lattice import flagset
 from .rules_slots import Slot, optional_facts, slot_table
 from .rules_tables import binary_rows, unary_rows
-from .terms import (Attr, BoundMethod, Call, ClassRef, Comp, Const, EnumMember, Evaluator, Ext, FuncRef, GlobalVal, Ite, Loop, New, Op,
+from .terms import (Attr, BoundMethod, Call, ClassRef, Comp, Const, EnumMember, Evaluator, Ext, FuncRef, GlobalVal, Ite, Lam, Loop, New, Op,
                     Outcome, Sym, Term, TupleT, _State, alternatives, guards_repr, norm_guards, flat_guards, walk)
 from .util import all_terms, call_name, call_recv, method_calls, none_test, outcome_terms
 
@@ -201,6 +201,23 @@ def field_narrowings(ctx: Ctx, c: ClassInfo, f: FieldInfo) -> List[Tuple[str, Tu
     if vkw is not None:
         nodes = vkw.elts if isinstance(vkw, (ast.List, ast.Tuple)) else [vkw]
         for nd in nodes:
+            # the validator object applied to (instance, attribute, value): what it does with the value
+            vt = ctx.ev.expr(nd, _State(), f.cls.module, None, 0)
+            if isinstance(vt, GlobalVal):
+                vt = vt.value
+            if isinstance(vt, (Lam, New)):
+                st1 = _State()
+                ctx.ev.apply(vt, (self_t, Sym('attribute'), Sym('value')), (), st1, 0)
+                found = False
+                for call in method_calls(list(st1.effects) + list(st1.trace), '_type_check'):
+                    if call_recv(call) == self_t and len(call.args) >= 2 and call.args[0] == Sym('value'):
+                        td = _type_desc(ctx, call.args[1], self_t)
+                        force = call.kw('force') == Const(True)
+                        if td:
+                            out.append((f'validator {ast.unparse(nd.func) if isinstance(nd, ast.Call) else ast.unparse(nd)}' + (' force' if force else ''), td, force, f.where))
+                            found = True
+                if found:
+                    continue
             if isinstance(nd, ast.Call) and ctx.model.canon(ast.unparse(nd.func)) == '_type_checker' and nd.args:
                 tt = ctx.ev.expr(nd.args[0], _State(), f.cls.module, None, 0)
                 td = _type_desc(ctx, tt, self_t)
